@@ -232,7 +232,14 @@ func zzEq(a, b []byte) bool {
 // C18.c: the write loop. A write that fails is retried with the same bytes on the redialled
 // connection before any later write; when the redial budget is exhausted the writer gets an error
 // and later Writes/Reads fail instead of blocking.
+var zzDeviations = 0
+
+func zzC18cWriteLoopDev1() { zzDeviations = 1; zzC18cWriteLoop() }
+func zzC18cWriteLoopDev2() { zzDeviations = 2; zzC18cWriteLoop() }
+func zzC18dReadLoopDev1()  { zzDeviations = 1; zzC18dReadLoop() }
+
 func zzC18cWriteLoop() {
+	vf.Deviations(zzDeviations)
 	d := &zzDialer{handshakeFrom: 1}
 	exhausted := vf.Choose("redial", 2) == 1
 	if exhausted {
@@ -308,6 +315,7 @@ func zzC18cWriteLoop() {
 
 // C18.d: the read loop filters control pings (answering each with one pong) and surfaces the rest once.
 func zzC18dReadLoop() {
+	vf.Deviations(zzDeviations)
 	d := &zzDialer{handshakeFrom: 1}
 	t, err := Dial(DialConfig{Dialer: d, DialConfig: transport.DialConfig{TransportID: "t"}, MaxReconnectAttempts: 2, ReconnectInterval: time.Millisecond})
 	vf.Assume(err == nil)
